@@ -3,7 +3,8 @@
 # Applies each literal replacement (first occurrence) to /repo, runs the check, reverts.
 import sys, subprocess
 prop, rel = sys.argv[1], sys.argv[2]
-path = '/repo/' + rel
+REPO = __import__('os').environ.get('REPO', '/repo')
+path = REPO + '/' + rel
 orig = open(path).read()
 for line in sys.stdin.read().split('\n'):
     if not line.strip():
@@ -14,11 +15,11 @@ for line in sys.stdin.read().split('\n'):
         print('NOT FOUND:', old); continue
     open(path, 'w').write(orig.replace(old, new, 1))
     try:
-        b = subprocess.run(['go', 'build', './...'], cwd='/repo', capture_output=True, text=True)
+        b = subprocess.run(['go', 'build', './...'], cwd=REPO, capture_output=True, text=True)
         if b.returncode != 0:
             print('## %s -> %s: DOES NOT BUILD %s' % (old, new, b.stderr[:200])); continue
         for pr in prop.split(','):
-            out = subprocess.run(['/verif/bin/patcheck', '-prop', pr, '-evidence', '/tmp/adhoc_ev.json'], capture_output=True, text=True)
+            out = subprocess.run([__import__('os').environ.get('PATCHECK', '/verif/bin/patcheck'), '-repo', REPO, '-prop', pr, '-evidence', '/tmp/adhoc_ev.json'], capture_output=True, text=True)
             lines = [l for l in (out.stdout + out.stderr).split('\n') if 'violated' in l or l.startswith('patcheck') or 'instances <' in l]
             print('## %s -> %s: %s exit=%d' % (old[:60], new[:60], pr, out.returncode))
             for l in lines[:4]:
